@@ -538,6 +538,10 @@ def handle (req : Json) : Except String Json := do
       | .obj kvs => pure (.obj (kvs.insert "domain" (.bool (doc.canonical && Nbdime.Ts.noExotic doc && wf doc d))
                                  |>.insert "python" (reply (patch doc d) encJ)))
       | j => pure j
+  | "tsapply" => do
+      let base ← decJ (req.getObjValD "base")
+      let ds ← decDecisions (req.getObjValD "decisions")
+      pure (Json.mkObj [("ts", reply (Nbdime.Ts.applyDecisions base ds) encJ), ("py", reply (applyDecisions base ds) encJ)])
   | "tssplit" => do
       let t ← req.getObjValAs? String "text"
       pure (Json.mkObj [("ok", .arr ((Nbdime.Ts.splitLines t.toList).map (fun l => Json.str (String.ofList l))).toArray)])
